@@ -1,7 +1,7 @@
 (* Props/C20.v -- property C20: a name used in a script compiles to the id its target has in the output file.
    Only statements; every proof is [exact lemma].  [gen_idtable] is regenerated from the sources on every run. *)
 From Coq Require Import Permutation.
-From TV Require Import Base.I32 Model.Ids Gen.Ids Proofs.Ids.
+From TV Require Import Base.I32 Base.F32 Model.Ops Model.Expr Gen.OpTable Model.Ids Gen.Ids Proofs.Ids Model.IdsExpr Proofs.IdsExpr.
 Open Scope Z_scope.
 
 (* (1) ANM: a successful compile writes, for every use of a sprite name, the id that every sprite of that name has in the
@@ -18,6 +18,31 @@ Theorem C20_anm_name_value_is_table_value : forall inp tbl args,
      exists i, nth_error (ai_scripts inp) i = Some n /\ nth_error args j = Some (u32 (Z.of_nat i)) /\
                forall i', nth_error (ai_scripts inp) i' = Some n -> i' = i).
 Proof. exact anm_name_value_is_table_value. Qed.
+
+(* (1') the same at the level of the source: sprite ids are constant expressions over `const` items.  The id written is
+        the expression after const_simplify (Model/Expr.v: simplify), the value of the name is the DFS const evaluator
+        (ceval) on `<id expr> + i`; both are the C11 models over the generated operator table, and they agree: *)
+Theorem C20_id_expr_evaluators_agree : forall libm fuel dl cache,
+  NoDup (map fst dl) ->
+  eval_deferred gen_optable libm (assoc dl) fuel (map fst dl) [] = Ok cache ->
+  forall e w k v,
+  written_value gen_optable libm cache e = Ok w ->
+  const_value gen_optable libm fuel dl e k = Ok v ->
+  v = wrap32 (w + k).
+Proof. exact two_evaluators_agree. Qed.
+
+Theorem C20_anm_src_name_value_is_table_value : forall libm fuel inp tbl nums args,
+  NoDup (map fst (as_consts inp)) ->
+  compile_anm_src gen_optable libm fuel gen_idtable inp = Ok (tbl, nums, args) ->
+  length tbl = length (concat (as_entries inp)) /\
+  (forall j n, nth_error (as_uses inp) j = Some (USprite n) ->
+     exists a, nth_error args j = Some a /\
+       (exists i s, nth_error (concat (as_entries inp)) i = Some s /\ ss_name s = n) /\
+       (forall i s, nth_error (concat (as_entries inp)) i = Some s -> ss_name s = n -> nth_error tbl i = Some a)) /\
+  (forall j n, nth_error (as_uses inp) j = Some (UScript n) ->
+     exists i, nth_error (map sc_name (as_scripts inp)) i = Some n /\ nth_error args j = Some (u32 (Z.of_nat i)) /\
+               forall i', nth_error (map sc_name (as_scripts inp)) i' = Some n -> i' = i).
+Proof. exact anm_src_name_value_is_table_value. Qed.
 
 (* the rule itself: the constants gather_sprite_id_exprs defines are the ids write_entry assigns *)
 Theorem C20_sprite_const_is_written_id : forall wraps decls w,
@@ -100,6 +125,17 @@ Example C20_anm_instance :
        ai_scripts := [0; 1; 2]%nat;
        ai_uses := [USprite 2; UScript 1; USprite 3; USprite 0; USprite 4; UScript 0; UScript 2; USprite 1] |}
   = Ok ([0; 10; 11; 12; 0; 5], [11; 1; 12; 0; 5; 0; 2; 10]).
+Proof. vm_compute. reflexivity. Qed.
+
+(* `const int K = 7; const int NEG = -3;`  sprites: a {id: (NEG ? K : 20)}, b {}, a' = a again with id 7 -- and uses *)
+Example C20_anm_src_instance :
+  compile_anm_src gen_optable (fun _ _ => 0) 50 gen_idtable
+    {| as_consts := [(0%nat, ELitI 7); (1%nat, EUn Neg (ELitI 3))];
+       as_entries := [[ {| ss_name := 0; ss_id := Some (ETern (EVar None 1%nat) (EVar None 0%nat) (ELitI 20)) |}; {| ss_name := 1; ss_id := None |} ];
+                      [ {| ss_name := 0; ss_id := Some (ELitI 7) |} ]];
+       as_scripts := [ {| sc_name := 0; sc_number := None |}; {| sc_name := 1; sc_number := Some 10 |}; {| sc_name := 2; sc_number := None |} ];
+       as_uses := [USprite 0; USprite 1; UScript 2] |}
+  = Ok ([7; 8; 7], [0; 10; 11], [7; 8; 2]).
 Proof. vm_compute. reflexivity. Qed.
 
 Example C20_msg_instance :
